@@ -127,6 +127,19 @@ fn main() {
         }
         let b = out.into_inner();
         emit_dec_subset(&b);
+        // garbage before the frames: plain, ending in 0xFF, containing sync-like pairs, truncated headers
+        for g in 0..4 {
+            let n1 = rng.below(20) as usize; let n2 = rng.below(10) as usize; let n3 = rng.below(6) as usize;
+            let n4 = rng.below(12) as usize; let n5 = 1 + rng.below(4) as usize; let n6 = rng.below(8) as usize; let lowbit = rng.below(2) as u8;
+            let mut pre: Vec<u8> = match g {
+                0 => rng.bytes(n1).into_iter().map(|x| if x == 0xFF { 0x12 } else { x }).collect(),
+                1 => { let mut v = rng.bytes(n2); v.push(0xFF); v }
+                2 => { let mut v = rng.bytes(n3); v.extend_from_slice(&[0xFF, 0xF8 | lowbit]); let t = rng.bytes(n4); v.extend(t); v }
+                _ => { let mut v = vec![0xFF; n5]; if !b.is_empty() { let k = n6.min(b.len()); v.extend_from_slice(&b[..k]); } v }
+            };
+            pre.extend_from_slice(&b);
+            emit_dec_subset(&pre);
+        }
         if !b.is_empty() {
             let mut d = b.clone();
             let pos = rng.below(d.len() as u64) as usize;
